@@ -1,11 +1,14 @@
 (* C10 — bivariate fit calibrates theta to the data's Kendall tau or refuses.
    Numeric pieces (compute_theta, theta domains, Frank's Debye residual) are generated from the
    source (R version in Gen_biv, executable Q version in Gen_bivq); the control skeleton of fit is
-   the hand-written Model.BivCtl, tied to the implementation by the correspondence check. *)
+   the hand-written Model.BivCtl, tied to the implementation by the correspondence check AND by the
+   statement-by-statement translation of check_theta / check_fit / check_marginal / _compute_theta / fit
+   from the current source (CopRun.Gen_bivctl, tools/vf/bivctlgen.py), proved equal to Model.BivCtl
+   below (the C10_bridge theorems). *)
 From Coq Require Import Reals QArith Qreals List Bool Lra Lia.
 From Coquelicot Require Import Coquelicot.
 From Cop Require Import Lib.NumpyR Spec.ArchDefs Model.BivCtl.
-From CopRun Require Import Gen_biv Gen_bivq.
+From CopRun Require Import Gen_biv Gen_bivq Gen_bivctl.
 Import ListNotations.
 Open Scope R_scope.
 
@@ -140,6 +143,72 @@ Proof.
     split; [reflexivity|]. split; [assumption|]. left. split; [reflexivity|assumption].
 Qed.
 
+(* ================= bridges: generated control skeleton (Gen_bivctl.v) = Model.BivCtl ================= *)
+(* outcome of a checking method whose model is a boolean "passes" *)
+Definition raised (ok : bool) (e : err) : option err := if ok then None else Some e.
+
+(* case analysis on every atomic test occurring in the goal *)
+Ltac ctl_atoms :=
+  repeat match goal with
+         | |- context [Qle_bool ?a ?b] => destruct (Qle_bool a b)
+         | |- context [ext_le ?a ?b] => destruct (ext_le a b)
+         | |- context [ext_eqb ?a ?b] => destruct (ext_eqb a b)
+         | |- context [existsb ?f ?l] => destruct (existsb f l)
+         | |- context [check_theta ?d ?x] => destruct (check_theta d x)
+         | |- context [check_marginal ?l] => destruct (check_marginal l)
+         | |- context [py_is_constant ?l] => destruct (py_is_constant l)
+         end.
+Ltac ctl_unfold :=
+  unfold raised, py_raise_if, py_seq, py_in_q, py_with_theta, py_truthy, py_is_none, ext_lt, q_lt, q_gt, q_le, q_ge.
+
+Theorem C10_bridge_check_theta d th :
+  gen_check_theta d th = raised (check_theta d th) ValueError.
+Proof. unfold gen_check_theta, check_theta. ctl_unfold. ctl_atoms; reflexivity. Qed.
+
+Theorem C10_bridge_check_fit d th : gen_check_fit d th = check_fit d th.
+Proof.
+  unfold gen_check_fit, check_fit. ctl_unfold. destruct th as [t|]; [|reflexivity].
+  rewrite ?C10_bridge_check_theta. ctl_unfold. ctl_atoms; reflexivity.
+Qed.
+
+(* min(u) / max(u) of an EMPTY sequence raise ValueError in the implementation, whereas Model.BivCtl.check_marginal []
+   = true (fit still refuses such data: the Kendall tau of empty columns is NaN); the bridge is about non-empty columns *)
+Theorem C10_bridge_check_marginal x r :
+  gen_check_marginal (x :: r) = raised (check_marginal (x :: r)) ValueError.
+Proof. unfold gen_check_marginal, check_marginal. ctl_unfold. ctl_atoms; reflexivity. Qed.
+Theorem C10_bridge_check_marginal_empty : gen_check_marginal [] = Some ValueError /\ check_marginal [] = true.
+Proof. split; reflexivity. Qed.
+
+Theorem C10_bridge_fit d compute kendalltau u U v V :
+  gen_fit d compute kendalltau (u :: U, v :: V) =
+  fit_ctl d compute (u :: U) (v :: V) (kendalltau (u :: U) (v :: V)).
+Proof.
+  unfold gen_fit, fit_ctl, gen__compute_theta, f_run, f_seq, f_call, f_if, f_raise, f_skip, f_assign_tau, f_tau_isnan,
+    f_assign_theta, f_check_theta, f_tau_assigned.
+  rewrite !C10_bridge_check_marginal. unfold raised.
+  destruct (check_marginal (u :: U)); [|reflexivity].
+  destruct (check_marginal (v :: V)); [|reflexivity].
+  cbn [negb s_tau s_theta].
+  destruct (kendalltau (u :: U) (v :: V)) as [t|]; cbn [s_tau s_theta].
+  - destruct (compute t) as [q| |]; cbn [s_tau s_theta]; try reflexivity;
+      rewrite ?C10_bridge_check_theta; unfold raised; ctl_atoms; reflexivity.
+  - ctl_atoms; reflexivity.
+Qed.
+
+(* the theorems about the control skeleton, transferred to the generated fit *)
+Theorem C10_gen_fit_out_of_range_refused d compute kt u U v V :
+  check_marginal (u :: U) = false \/ check_marginal (v :: V) = false ->
+  gen_fit d compute kt (u :: U, v :: V) = FitErr ValueError false None.
+Proof. intros H. rewrite C10_bridge_fit. now apply C10_out_of_range_refused. Qed.
+Theorem C10_gen_fit_ok_implies_admissible d compute kt u U v V t th :
+  gen_fit d compute kt (u :: U, v :: V) = FitOk t th ->
+  kt (u :: U) (v :: V) = Some t /\ gen_check_theta d th = None /\
+  (th = PInf /\ compute t = TInf \/ exists q, th = Fin q /\ compute t = TVal q).
+Proof.
+  rewrite C10_bridge_fit. intros H. apply C10_ok_implies_admissible in H. destruct H as [H1 [H2 H3]].
+  split; [exact H1|]. split; [|exact H3]. rewrite C10_bridge_check_theta, H2. reflexivity.
+Qed.
+
 (* The statement at full strength: a fit that returns normally leaves a USABLE model.  It is false of
    the faithful model (and of the code): Clayton accepts tau = 0 (theta = 0, every query then raises
    NotFittedError) and tau = 1 (theta = inf). *)
@@ -184,3 +253,7 @@ Print Assumptions C10_clayton_q_correct.
 Print Assumptions C10_ok_implies_admissible.
 Print Assumptions C10_admissible_partial_clayton.
 Print Assumptions C10_admissible_refuted_clayton_tau0.
+Print Assumptions C10_bridge_check_theta.
+Print Assumptions C10_bridge_check_fit.
+Print Assumptions C10_bridge_check_marginal.
+Print Assumptions C10_bridge_fit.
